@@ -3,7 +3,7 @@
 (*                                                                              *)
 (* A key is [name |-> byte sequence, value |-> integer].  This module defines   *)
 (*  - the attributes of a key the sort modes talk about (decimal value,        *)
-(*    weekday / month index, civil instant in three date layouts, raw bytes),  *)
+(*    weekday / month index, instant in five date layouts, raw bytes),         *)
 (*    each with an explicit DOMAIN (kind "unk" = the specification says nothing *)
 (*    about how the key is interpreted);                                        *)
 (*  - per mode the SPECIFIED strict order on HOMOGENEOUS pools (SpecLess) -     *)
@@ -86,12 +86,15 @@ B_inf      == <<105, 110, 102>>
 B_infinity == <<105, 110, 102, 105, 110, 105, 116, 121>>
 B_nan      == <<110, 97, 110>>
 \* certainly not a number for ParseFloat: not the decimal grammar, no hexadecimal prefix, not a
-\* spelling of infinity / NaN
+\* spelling of infinity / NaN, no underscore between two digits
+\* (ParseFloat also accepts Go's digit separators: 1_0 is 10)
+DigitSeparator(s) == \E i \in 2..(Len(s) - 1) : s[i] = 95 /\ IsDigit(s[i - 1]) /\ IsDigit(s[i + 1])
 NotNum(s) ==
   LET u == LowerASCII(Unsigned(s)) IN
   /\ ~DecGrammar(s)
   /\ ~(Len(u) >= 2 /\ u[1] = 48 /\ u[2] = 120)
   /\ u \notin {B_inf, B_infinity, B_nan}
+  /\ ~DigitSeparator(s)
 
 \* -------------------------------------------------------- weekdays and months
 WeekdayTab == <<
@@ -148,7 +151,11 @@ WeekdayIdx(s) == TabIdx(WeekdayTab, s)
 MonthIdx(s)   == TabIdx(MonthTab, s)
 
 \* ---------------------------------------------------------------------- dates
-\* three layouts:  1 = YYYY-MM-DD   2 = YYYY-MM-DD hh:mm:ss   3 = MM/DD/YYYY  (no zone: UTC)
+\* five layouts:  1 = YYYY-MM-DD   2 = YYYY-MM-DD hh:mm:ss   3 = MM/DD/YYYY      (no zone: UTC)
+\*                4 = YYYY-MM-DDThh:mm:ss+hh:mm (RFC 3339, numeric offset)
+\*                5 = YYYY-MM-DD hh:mm:ss +hhmm
+\* A key of layout 4/5 denotes the INSTANT  civil time - offset: two keys of one layout may spell
+\* the same instant differently (12:00+02:00 = 05:00-05:00 = 10:00+00:00 = 10:00-00:00).
 DigAt(s, I) == \A i \in I : IsDigit(s[i])
 D2(s, i) == (s[i] - 48) * 10 + (s[i + 1] - 48)
 D4(s, i) == D2(s, i) * 100 + D2(s, i + 2)
@@ -156,22 +163,52 @@ Shape1(s) == Len(s) = 10 /\ DigAt(s, {1, 2, 3, 4, 6, 7, 9, 10}) /\ s[5] = 45 /\ 
 Shape2(s) == /\ Len(s) = 19 /\ Shape1(SubSeq(s, 1, 10)) /\ s[11] = 32
              /\ DigAt(s, {12, 13, 15, 16, 18, 19}) /\ s[14] = 58 /\ s[17] = 58
 Shape3(s) == Len(s) = 10 /\ DigAt(s, {1, 2, 4, 5, 7, 8, 9, 10}) /\ s[3] = 47 /\ s[6] = 47
+Shape4(s) == /\ Len(s) = 25 /\ Shape1(SubSeq(s, 1, 10)) /\ s[11] = 84
+             /\ DigAt(s, {12, 13, 15, 16, 18, 19}) /\ s[14] = 58 /\ s[17] = 58
+             /\ IsSign(s[20]) /\ DigAt(s, {21, 22, 24, 25}) /\ s[23] = 58
+Shape5(s) == /\ Len(s) = 25 /\ Shape2(SubSeq(s, 1, 19)) /\ s[20] = 32
+             /\ IsSign(s[21]) /\ DigAt(s, {22, 23, 24, 25})
 Leap(y) == (y % 4 = 0 /\ y % 100 # 0) \/ y % 400 = 0
 DaysIn(y, m) == IF m = 2 THEN (IF Leap(y) THEN 29 ELSE 28) ELSE IF m \in {4, 6, 9, 11} THEN 30 ELSE 31
 CivilOK(t) == /\ t[1] >= 1000 /\ t[2] \in 1..12 /\ t[3] \in 1..DaysIn(t[1], t[2])
               /\ t[4] \in 0..23 /\ t[5] \in 0..59 /\ t[6] \in 0..59
-NoDate == [lay |-> 0, t |-> <<>>]
+\* seconds east of UTC of the offset  sign hh mm ; domain: at most 14:59
+OffSecs(sign, hh, mm) == (IF sign = 45 THEN 0 - 1 ELSE 1) * (hh * 3600 + mm * 60)
+OffOK(hh, mm) == hh \in 0..14 /\ mm \in 0..59
+NoDate == [lay |-> 0, t |-> <<>>, off |-> 0, offok |-> TRUE]
+HMS(s, i) == <<D2(s, i), D2(s, i + 3), D2(s, i + 6)>>
 DateOf(s) ==
-  LET r == IF Shape1(s) THEN [lay |-> 1, t |-> <<D4(s, 1), D2(s, 6), D2(s, 9), 0, 0, 0>>]
-           ELSE IF Shape2(s) THEN [lay |-> 2, t |-> <<D4(s, 1), D2(s, 6), D2(s, 9), D2(s, 12), D2(s, 15), D2(s, 18)>>]
-           ELSE IF Shape3(s) THEN [lay |-> 3, t |-> <<D4(s, 7), D2(s, 1), D2(s, 4), 0, 0, 0>>]
+  LET r == IF Shape1(s) THEN [lay |-> 1, t |-> <<D4(s, 1), D2(s, 6), D2(s, 9), 0, 0, 0>>, off |-> 0, offok |-> TRUE]
+           ELSE IF Shape2(s) THEN [lay |-> 2, t |-> <<D4(s, 1), D2(s, 6), D2(s, 9)>> \o HMS(s, 12), off |-> 0, offok |-> TRUE]
+           ELSE IF Shape3(s) THEN [lay |-> 3, t |-> <<D4(s, 7), D2(s, 1), D2(s, 4), 0, 0, 0>>, off |-> 0, offok |-> TRUE]
+           ELSE IF Shape4(s) THEN [lay |-> 4, t |-> <<D4(s, 1), D2(s, 6), D2(s, 9)>> \o HMS(s, 12),
+                                   off |-> OffSecs(s[20], D2(s, 21), D2(s, 24)), offok |-> OffOK(D2(s, 21), D2(s, 24))]
+           ELSE IF Shape5(s) THEN [lay |-> 5, t |-> <<D4(s, 1), D2(s, 6), D2(s, 9)>> \o HMS(s, 12),
+                                   off |-> OffSecs(s[21], D2(s, 22), D2(s, 24)), offok |-> OffOK(D2(s, 22), D2(s, 24))]
            ELSE NoDate
-  IN IF r.lay # 0 /\ CivilOK(r.t) THEN r ELSE NoDate
+  IN IF r.lay # 0 /\ CivilOK(r.t) /\ r.offok THEN r ELSE NoDate
 RECURSIVE TupleLessAt(_, _, _)
 TupleLessAt(a, b, i) ==
   IF i > Len(a) THEN FALSE ELSE IF a[i] # b[i] THEN a[i] < b[i] ELSE TupleLessAt(a, b, i + 1)
-\* chronological order of civil date-times in one zone
-DateLess(a, b) == TupleLessAt(DateOf(a).t, DateOf(b).t, 1)
+\* days since 1970-01-01 of a civil date (proleptic Gregorian)
+DaysFromCivil(y, m, d) ==
+  LET yy  == IF m <= 2 THEN y - 1 ELSE y
+      era == yy \div 400
+      yoe == yy - era * 400
+      mp  == IF m > 2 THEN m - 3 ELSE m + 9
+      doy == (153 * mp + 2) \div 5 + d - 1
+      doe == yoe * 365 + yoe \div 4 - yoe \div 100 + doy
+  IN era * 146097 + doe - 719468
+\* the instant a parsed date denotes: <<day number, second of that day>> in UTC (a pair, because
+\* seconds since the epoch leave TLC's 32-bit integers in 2038)
+InstantOf(r) ==
+  LET secs == r.t[4] * 3600 + r.t[5] * 60 + r.t[6] - r.off
+  IN <<DaysFromCivil(r.t[1], r.t[2], r.t[3]) + secs \div 86400, secs % 86400>>
+Instant(s) == InstantOf(DateOf(s))
+\* chronological order of two dates
+DateLess(a, b) == TupleLessAt(Instant(a), Instant(b), 1)
+\* (the order of the civil fields; equals DateLess when both offsets are equal - law CivilAgrees)
+CivilLess(a, b) == TupleLessAt(DateOf(a).t, DateOf(b).t, 1)
 
 \* -------------------------------------------------- kind of a key, per mode
 Modes == {"text", "numeric", "contextual", "date", "value"}
@@ -181,12 +218,12 @@ CalKind(s) ==
   IF ~IsASCII(s) THEN "unk"
   ELSE IF WeekdayIdx(s) >= 0 THEN "weekday" ELSE IF MonthIdx(s) >= 0 THEN "month" ELSE "no"
 CtxKind(s) == IF CalKind(s) = "no" THEN NumKind(s) ELSE CalKind(s)
-\* layout detection (dateparse) is trusted only on the three layouts and on digit-free ASCII keys
+\* layout detection (dateparse) is trusted only on the five layouts and on digit-free ASCII keys
 \* (never dates); any other key with a digit is "num" (a number, still not specified in date
 \* mode) or "unk"
+DateKinds == <<"date1", "date2", "date3", "date4", "date5">>
 DateKind(s) ==
-  IF DateOf(s).lay = 1 THEN "date1" ELSE IF DateOf(s).lay = 2 THEN "date2"
-  ELSE IF DateOf(s).lay = 3 THEN "date3"
+  IF DateOf(s).lay # 0 THEN DateKinds[DateOf(s).lay]
   ELSE IF IsASCII(s) /\ ~HasDigit(s) THEN CtxKind(s)
   ELSE IF IsNum(s) THEN "num" ELSE "unk"
 
@@ -196,7 +233,7 @@ Kind(mode, s) ==
     [] mode = "date" -> DateKind(s)
     [] OTHER -> "any"
 
-KindOrder == <<"any", "weekday", "month", "date1", "date2", "date3", "num", "text", "unk">>
+KindOrder == <<"any", "weekday", "month", "date1", "date2", "date3", "date4", "date5", "num", "text", "unk">>
 Kinds(mode, names) == {Kind(mode, names[i]) : i \in 1..Len(names)}
 
 RECURSIVE JoinKinds(_, _, _)
@@ -216,7 +253,7 @@ DeterminedKinds(mode, S) ==
   \/ mode \in {"text", "value"}
   \/ mode = "numeric" /\ S \in {{"num"}, {"text"}}
   \/ mode = "contextual" /\ S \in {{"num"}, {"text"}, {"weekday"}, {"month"}}
-  \/ mode = "date" /\ S \in {{"date1"}, {"date2"}, {"date3"}, {"text"}, {"weekday"}, {"month"}}
+  \/ mode = "date" /\ S \in {{"date1"}, {"date2"}, {"date3"}, {"date4"}, {"date5"}, {"text"}, {"weekday"}, {"month"}}
 Determined(mode, names) == DeterminedKinds(mode, Kinds(mode, names))
 
 \* The specified strict order (ascending direction) between two keys of a pool whose class is
@@ -230,11 +267,45 @@ SpecLessK(mode, kind, a, b) ==
     [] kind = "text"    -> BytesLess(a.name, b.name)
     [] kind = "weekday" -> WeekdayIdx(a.name) < WeekdayIdx(b.name)
     [] kind = "month"   -> MonthIdx(a.name) < MonthIdx(b.name)
-    [] kind \in {"date1", "date2", "date3"} -> DateLess(a.name, b.name)
+    [] kind \in {"date1", "date2", "date3", "date4", "date5"} -> DateLess(a.name, b.name)
     [] OTHER -> FALSE
 \* (between keys of different kinds nothing is specified)
 SpecLess(mode, a, b) ==
   Kind(mode, a.name) = Kind(mode, b.name) /\ SpecLessK(mode, Kind(mode, a.name), a, b)
+
+\* ---------------------------------------------------------------------- totals
+\* The total of a key is an integer of a BOUNDED type: W bits, two's complement (the code: 64).
+\* `value` is specified on the mathematical integers (larger total first <=> a.value > b.value,
+\* SpecLessK above).  TLC's own integers have 32 bits, so the width is an explicit parameter and
+\* the binding scales: a pool whose totals v lie in IntW(W) is handed to the real code as
+\*      Embed(64, W, off, v) = v * 2^(64-W) + off.
+\* Embed is strictly monotone, reaches both extremes of the wide type and commutes with wrapping
+\* subtraction (laws EmbedRange / EmbedMonotone / EmbedHom / EmbedExtremes, decided by TLC in
+\* SortingWidth.tla for every B <= MaxB (7 quick, 9 thorough) and W <= B), so the real code computes on the embedded totals
+\* exactly what W-bit code computes on v: order, ties and transitivity are decided by TLC on v
+\* while the code sees totals whose differences leave the 64-bit range.
+RECURSIVE Pow2(_)
+Pow2(k) == IF k = 0 THEN 1 ELSE 2 * Pow2(k - 1)
+IntW(W) == (0 - Pow2(W - 1))..(Pow2(W - 1) - 1)
+Wrap(W, x) == ((x + Pow2(W - 1)) % Pow2(W)) - Pow2(W - 1)      \* x reduced to W bits
+WrapSub(W, x, y) == Wrap(W, x - y)                              \* what `x - y` computes in W bits
+\* offsets "zero" / "one" / "top": one offset (0, 1, 2^(B-W) - 1) added to every scaled total.
+\* "lsb": the total carries one more bit, v = 2 * hi + lo with hi in IntW(W), and is handed over
+\* as hi * 2^(B-W) + lo - neighbouring integers of the wide type (they differ by 1) at every
+\* magnitude, which a comparison through a narrower or a floating type cannot tell apart.
+OffTags == {"zero", "one", "top", "lsb"}
+OffsetOf(B, W, tag) == CASE tag = "zero" -> 0 [] tag = "one" -> 1 [] tag = "top" -> Pow2(B - W) - 1
+OffTagOK(B, W, tag) == tag \in OffTags /\ (tag \in {"one", "lsb"} => W < B)
+EmbedDomain(W, tag) == IF tag = "lsb" THEN IntW(W + 1) ELSE IntW(W)
+Embed(B, W, tag, v) == IF tag = "lsb" THEN ((v \div 2) * Pow2(B - W)) + (v % 2)
+                       ELSE v * Pow2(B - W) + OffsetOf(B, W, tag)
+\* value map of a pool as stated in vectors and traces:  w = 0: totals handed over as they are
+\* (|v| <= 10^9);  w in 2..16: every v in EmbedDomain(w, off), handed over as Embed(64, w, off, v)
+VMapOK(vm, vals) ==
+  \/ vm.w = 0 /\ vm.off = "zero"
+  \/ vm.w \in 2..16 /\ vm.off \in OffTags /\ \A v \in vals : v \in EmbedDomain(vm.w, vm.off)
+\* NEGATIVE CONTROL (must NOT be an order): "less" decided by the sign of the W-bit difference
+DiffLess(W, x, y) == WrapSub(W, x, y) < 0
 
 \* ----------------------------------------------------------------- order axioms
 \* R is a relation on K given as an operator-like function [K \X K -> BOOLEAN]
